@@ -101,7 +101,13 @@ class UntypedAtomic(AnyAtomicType):
                 if hasattr(other, 'make'):
                     return op(type(other).make(self.value, parser=self.parser), other)
                 else:
-                    return op(type(other)(self.value), other)
+                    try:
+                        value = type(other)(self.value)
+                    except ArithmeticError:
+                        # e.g. decimal.InvalidOperation for a not numeric string
+                        msg = "{!r} cannot be cast to {!r}".format(self.value, type(other))
+                        raise ValueError(msg) from None
+                    return op(value, other)
             case _:
                 return cast(bool, NotImplemented)
 
